@@ -219,7 +219,7 @@ def check_language(spec, out, L=None):
             exprs = sdef['reaches']['stepExpressions'] if sdef['reaches'] else []
             from ..ref_eval import _step_name
             exp_targets = sorted(_step_name(e) for e in exprs)
-            got_targets = sorted(cn for cn, lst in s.children.items() for _ in lst)
+            got_targets = sorted(tgt.name for lst in s.children.values() for (tgt, _) in lst)
             if exp_targets != got_targets:
                 out.add('links-per-expression-differ', f'{t}.{n}: {got_targets} != {exp_targets}')
     for s in lg.attack_steps:
@@ -323,13 +323,14 @@ def check_case(case) -> Outcome:
             if src is None:
                 out.add('over-approx:source-step-missing', n.full_name)
                 continue
+            # all link targets of the step, whatever the children mapping is keyed by
+            targets = [tgt for lst in src.children.values() for (tgt, _) in lst]
             for c in n.children:
-                ok = any(tgt.asset.name in L.chain(str(c.asset.type))
-                         for (tgt, _) in src.children.get(c.name, []))
+                ok = any(tgt.name == c.name and tgt.asset.name in L.chain(str(c.asset.type)) for tgt in targets)
                 if not ok:
                     out.add('over-approx:edge-not-predicted',
                             f'{n.full_name} ({n.asset.type}) -> {c.full_name} ({c.asset.type}); language graph has '
-                            f'{[t.qualified_name for t, _ in src.children.get(c.name, [])]}')
+                            f'{[t.qualified_name for t in targets if t.name == c.name]}')
                     break
     return out
 
